@@ -256,6 +256,8 @@ fn perturb_now() {
     match x % 16 {
         0 | 1 => std::thread::yield_now(),
         2 => std::thread::sleep(Duration::from_micros((x >> 8) % 150)),
+        // rarely a long stall: a thread preempted for milliseconds in the middle of an operation
+        3 if (x >> 4) % 24 == 0 => std::thread::sleep(Duration::from_micros(500 + (x >> 16) % 2500)),
         _ => {}
     }
 }
@@ -538,7 +540,7 @@ pub fn build_api(exec: Exec, cfg: &SCfg, cb: RecTs) -> Result<Box<dyn Api>, stre
         };
     }
     // the hasher perturbs the schedule in every colliding case and in a third of the others
-    if cfg.collide {
+    if cfg.collide && std::env::var("VERIF_TRACK_ALL").is_err() {
         build_with(exec, cfg, cb, PairKB, PerturbS)
     } else if (cfg.num_counters + cfg.buffer_size + cfg.max_cost.unsigned_abs() as usize) % 3 == 0 {
         build_with(exec, cfg, cb, TransparentKeyBuilder::<K>::default(), PerturbS)
@@ -795,6 +797,12 @@ struct Shared {
     clear_spans: Mutex<Vec<(u64, u64)>>,
     /// insert(v) that returned true began at this monotone time
     begin_ns: Mutex<HashMap<Val, u64>>,
+    /// collide parts: (key or u32::MAX for clear, call began, call ended or u64::MAX) of every
+    /// insert / insert_if_present / remove / clear, in logical time
+    key_events: Mutex<Vec<(u32, u64, u64, u32)>>,
+    track_keys: AtomicBool,
+    /// (began, returned Ok at) of every wait() that succeeded, in logical time
+    wait_spans: Mutex<Vec<(u64, u64)>>,
 }
 
 /// monotone nanoseconds since the first use in this process
@@ -928,6 +936,9 @@ fn run_inner(case: &StressCase) -> SResult {
         ret_stamp: Mutex::new(HashMap::new()),
         clear_spans: Mutex::new(Vec::new()),
         begin_ns: Mutex::new(HashMap::new()),
+        key_events: Mutex::new(Vec::new()),
+        wait_spans: Mutex::new(Vec::new()),
+        track_keys: AtomicBool::new((case.cfg.collide || std::env::var("VERIF_TRACK_ALL").is_ok()) && case.cfg.max_cost >= 1 << 40),
     });
     CLOSE_CLEAR_DONE_NS.store(0, Ordering::SeqCst);
     CLOSE_STRETCH.store(case.kind == Kind::Close && case.perturb % 2 == 0, Ordering::SeqCst);
@@ -1315,6 +1326,26 @@ fn client(t: usize, kind: Kind, api: Box<dyn Api>, script: &[SOp], sh: &Shared, 
             h.push(format!("t{} {}", t, s));
         }
     };
+    // collide parts (ample capacity, no TTLs): a value one lookup saw can only disappear through an
+    // insert / insert_if_present / remove of that key or a clear()
+    let track = sh.track_keys.load(Ordering::SeqCst);
+    // (serial: of the value an insert carries, 0 otherwise)
+    let ev_begin = |k: u32, serial: u32| -> usize {
+        if !track {
+            return 0;
+        }
+        let b = sh.lclock.fetch_add(1, Ordering::SeqCst);
+        let mut g = sh.key_events.lock();
+        g.push((k, b, u64::MAX, serial));
+        g.len() - 1
+    };
+    let ev_end = |i: usize| {
+        if track {
+            let e = sh.lclock.fetch_add(1, Ordering::SeqCst);
+            sh.key_events.lock()[i].2 = e;
+        }
+    };
+    let mut last_seen: HashMap<u32, (Val, u64)> = HashMap::new();
     for op in script {
         let a = match api.as_ref() {
             Some(a) => a,
@@ -1328,9 +1359,11 @@ fn client(t: usize, kind: Kind, api: Box<dyn Api>, script: &[SOp], sh: &Shared, 
                 sh.issued.lock().entry(k).or_default().insert(v);
                 let seq_before = sh.clear_seq.load(Ordering::SeqCst);
                 let began = mono_ns();
+                let evi = ev_begin(k, v.serial);
                 progress.enter(t, 1);
                 let r = a.insert(k as u64, v, *cost, ttl_of(*ttl_ms));
                 progress.leave(t);
+                ev_end(evi);
                 hist(format!("insert({}, {}, cost {}, ttl {}ms) = {:?}", k, v, cost, ttl_ms, r));
                 match r {
                     Ok(true) => {
@@ -1368,9 +1401,11 @@ fn client(t: usize, kind: Kind, api: Box<dyn Api>, script: &[SOp], sh: &Shared, 
                 let v = Val { key: k, serial: s, tag: (*cost).clamp(0, 1000) as u32 + 1 };
                 sh.issued.lock().entry(k).or_default().insert(v);
                 let seq_before = sh.clear_seq.load(Ordering::SeqCst);
+                let evi = ev_begin(k, v.serial);
                 progress.enter(t, 2);
                 let r = a.iip(k as u64, v, *cost);
                 progress.leave(t);
+                ev_end(evi);
                 hist(format!("insert_if_present({}, {}) = {:?}", k, v, r));
                 match r {
                     Ok(true) => {
@@ -1397,9 +1432,11 @@ fn client(t: usize, kind: Kind, api: Box<dyn Api>, script: &[SOp], sh: &Shared, 
             }
             SOp::Remove { k } => {
                 let k = if kind == Kind::Barrier { own_key(t, *k) } else { *k };
+                let evi = ev_begin(k, 0);
                 progress.enter(t, 3);
                 let r = a.remove(k as u64);
                 progress.leave(t);
+                ev_end(evi);
                 hist(format!("remove({}) = {:?}", k, r));
                 match r {
                     Ok(()) => {
@@ -1432,6 +1469,42 @@ fn client(t: usize, kind: Kind, api: Box<dyn Api>, script: &[SOp], sh: &Shared, 
                 };
                 progress.leave(t);
                 sh.lookups.fetch_add(1, Ordering::SeqCst);
+                if track {
+                    let gend = sh.lclock.fetch_add(1, Ordering::SeqCst);
+                    match r {
+                        Some(v) => {
+                            last_seen.insert(k, (v, gend));
+                        }
+                        None => {
+                            if let Some((v, t1)) = last_seen.remove(&k) {
+                                // from the moment the write of v began: a remove issued meanwhile may be
+                                // applied after v was stored (its Delete item is queued behind v's New)
+                                // ... and a remove's Delete item may be applied long after the call
+                                // returned: it counts as possibly pending until a wait() that began after
+                                // it has returned Ok
+                                let g = sh.key_events.lock();
+                                let ws = sh.wait_spans.lock();
+                                let t0 = g.iter().find(|e| e.3 == v.serial).map(|e| e.1).unwrap_or(0).min(t1);
+                                let touched = g.iter().any(|(ek, b, e, ser)| {
+                                    if *ser == v.serial || !(*ek == k || *ek == u32::MAX) || *b > gend {
+                                        return false;
+                                    }
+                                    let settled = if *e == u64::MAX { u64::MAX } else { ws.iter().filter(|(wb, _)| *wb >= *e).map(|(_, we)| *we).min().unwrap_or(u64::MAX) };
+                                    settled >= t0
+                                });
+                                drop(ws);
+                                drop(g);
+                                if !touched {
+                                    sh.violations.lock().push(SResult::violation(
+                                        &["C18", "C02"],
+                                        "value_vanished",
+                                        format!("thread {}: key {} held {} at logical time {}, a later lookup (ended at {}) finds nothing, and no other insert / remove of that key nor a clear() overlapped the time since its own write began (capacity is ample, nothing has a TTL): an operation on another key removed it", t, k, v, t1, gend),
+                                    ));
+                                }
+                            }
+                        }
+                    }
+                }
                 if let Some(v) = r {
                     if v.key != k {
                         sh.violations.lock().push(SResult::violation(&["C02", "C18"], "lookup_other_key", format!("thread {}: lookup of key {} returned {} written under key {}", t, k, v, v.key)));
@@ -1476,9 +1549,14 @@ fn client(t: usize, kind: Kind, api: Box<dyn Api>, script: &[SOp], sh: &Shared, 
             }
             SOp::Wait => {
                 let seq0 = batch_seq;
+                let wb = if track { sh.lclock.fetch_add(1, Ordering::SeqCst) } else { 0 };
                 progress.enter(t, 6);
                 let r = a.wait();
                 progress.leave(t);
+                if track && r.is_ok() {
+                    let we = sh.lclock.fetch_add(1, Ordering::SeqCst);
+                    sh.wait_spans.lock().push((wb, we));
+                }
                 let seq1 = sh.clear_seq.load(Ordering::SeqCst);
                 hist(format!("wait() = {:?}", r));
                 if kind == Kind::Barrier {
@@ -1526,9 +1604,11 @@ fn client(t: usize, kind: Kind, api: Box<dyn Api>, script: &[SOp], sh: &Shared, 
             SOp::Clear => {
                 sh.clear_seq.fetch_add(1, Ordering::SeqCst);
                 let cstart = sh.lclock.fetch_add(1, Ordering::SeqCst);
+                let evi = ev_begin(u32::MAX, 0);
                 progress.enter(t, 7);
                 let r = a.clear();
                 progress.leave(t);
+                ev_end(evi);
                 if r.is_ok() {
                     let cend = sh.lclock.fetch_add(1, Ordering::SeqCst);
                     sh.clear_spans.lock().push((cstart, cend));
